@@ -453,7 +453,7 @@ fn check_generated(rep: &mut Report, drv: &mut Driver, g: &generator::Generated,
         let names: Vec<String> = g.prog.fns.iter().map(|f| f.name.clone()).collect();
         let same = mirtie::compare_mir(rep, drv, &src, &sx, &names, &ident);
         // LIR layer: the Lean model of lir/lower.rs on the real MIR against the real LIR
-        lirtie::compare_lir(rep, drv, &src, &ident);
+        lirtie::compare_lir(rep, drv, &src, &ident, Some((g.arg_ty.name(), args, &spec)));
         if same == names.len() as u64 && any_ok {
             let sig: Vec<&str> = cons.keys().map(|s| s.as_str()).collect();
             rep.class(format!("t5:{}|{}->{}", sig.join(","), g.arg_ty.name(), g.ret.name()));
@@ -552,7 +552,7 @@ fn check_representative(rep: &mut Report, drv: &mut Driver, name: &str, prog: &P
         let names: Vec<String> = prog.fns.iter().map(|f| f.name.clone()).collect();
         ok = mirtie::compare_mir(rep, drv, &src, &sx, &names, &ident) == names.len() as u64;
     }
-    if lirtie::compare_lir(rep, drv, &src, &ident) != prog.fns.len() as u64 { ok = false; }
+    if lirtie::compare_lir(rep, drv, &src, &ident, Some((ty.name(), &args, &spec))) != prog.fns.len() as u64 { ok = false; }
     if ok && spec.iter().any(|s| s.starts_with("ok")) { rep.class(format!("t5corpus:{name}")); }
     rep.hist("t5-class-representatives", if ok { "agree" } else { "DIFFERENT" });
 }
